@@ -16,6 +16,7 @@ import json
 import os
 import sys
 from common import Infra, ndjson
+from fn_lib import judge_cases, load_batches
 
 
 def replay(ctx, b):
@@ -59,15 +60,13 @@ def run(ctx):
     cases = os.path.join(ctx.work, "cases.ndjson")
     hg = ctx.harness([b, "gen", rs.path, cases], timeout=900)
     ncases = hg["summary"]["cases"]
-    rc = ctx.tlc("fn/MerkleCases", "cfg/MerkleCases.cfg", timeout=3000, tag="cases", files={"cases.ndjson": open(cases).read()})
-    if not rc.ok:
-        raise Infra("TLC failed while judging the recorded cases: violated=%s error=%s\n%s" % (rc.violated, rc.error, rc.out[-2000:]))
-    hc = ctx.harness([b, "cmp", cases, rc.path], timeout=900)
+    expect, cruns = judge_cases(ctx, "fn/MerkleCases", "cfg/MerkleCases.cfg", cases, chunk=25000)
+    hc = ctx.harness([b, "cmp", cases, expect], timeout=900)
     if hc["summary"].get("cases") != ncases:
         raise Infra("compared %s of %d cases" % (hc["summary"].get("cases"), ncases))
     samples += hc["samples"][:2]
     # ---- negative control: a flipped expectation must be reported
-    docs = list(rc.exports())
+    docs = load_batches(expect)
     docs[0][0]["exp"] = not docs[0][0]["exp"]
     ctl = os.path.join(ctx.work, "expect_corrupted.ndjson")
     with open(ctl, "w") as fh:
@@ -77,8 +76,8 @@ def run(ctx):
         raise Infra("negative control: flipped expectation of case %s was not reported" % docs[0][0]["i"])
     nval = ht["summary"]["validations"] + ncases
     ctx.finish("model_checking", dict(
-        states=sum(d.distinct for d in designs) + rc.distinct,
-        transitions=sum(d.generated for d in designs) + rc.generated,
+        states=sum(d.distinct for d in designs) + sum(r.distinct for r in cruns),
+        transitions=sum(d.generated for d in designs) + sum(r.generated for r in cruns),
         traces_validated_against_impl=nval,
         evaluations=nval,
         distinct_nontrivial=ht["summary"]["validations"] - ht["summary"]["expected_accept"] + ncases - hc["summary"]["expected_accept"],
